@@ -445,7 +445,7 @@ fn main() {
         finish(&cli, rep, t0);
     }
 
-    let release_stage = cli.stage == "release_boundary";
+    let release_stage = cli.stage.starts_with("release");
     let exhaustive_bits: u32 = if release_stage { 16 } else { cli.t(24, 32) };
     let n_random: u64 = if release_stage { 100_000 } else { cli.t(500_000, 20_000_000) };
     let f32_exhaustive = cli.thorough() && !release_stage;
